@@ -8,7 +8,7 @@ from ..runner import canon, load_corpus
 
 MODULE = "Props.C15"
 THEOREMS = ["C15_unmentioned_provided_runs_default", "C15_delegation_is_direct_calls", "C15_body_calls_required_methods",
-            "C15_receivers_share_the_evaluation", "C15_nonvacuous"]
+            "C15_receivers_share_the_evaluation", "C15_pair_delegation_is_one_direct_call", "C15_nonvacuous"]
 CRATE = "deleg15"
 
 RULE = ("clause sets over the delegation inventory (trait D: required r0/r1; provided p_ref(&self), p_mut(&mut self), p_val(self), "
